@@ -155,7 +155,7 @@ func runsFor(prop, tier string) []run {
 			}(), pick(3, 5), minutes(pickf(0.5, 4))},
 		}
 	case "C05":
-		alpha := []string{"W", "Sy", "R", "Snap", "ERR", "MonFail", "MonWake", "Remove", "Add", "Sync", "Verify", "Restart"}
+		alpha := []string{"W", "Sy", "Un", "R", "Snap", "ERR", "MonFail", "MonWake", "Remove", "Add", "Sync", "Verify", "Restart"}
 		or := []string{"c02", "c05", "c04", "c18"}
 		mk := func(rf, n int, init []string) eb.Cfg {
 			return eb.Cfg{RF: rf, N: n, Alphabet: alpha, Oracles: or, Drain: false, MaxWrites: 2, MaxReads: 2, MaxSnaps: 1, MaxAdds: 2, MaxRestarts: 1, MaxFaults: 3, InitOps: init}
@@ -166,7 +166,7 @@ func runsFor(prop, tier string) []run {
 			{"rf3-from-2rw", mk(3, 3, rw2), pick(5, 7), minutes(pickf(0.7, 5))},
 			{"rf3-from-3rw-data-path-through-rpc", func() eb.Cfg {
 				c := mk(3, 3, rw3)
-				c.Alphabet = []string{"W", "Sy", "R", "MonFail", "MonWake", "Remove"}
+				c.Alphabet = []string{"W", "Sy", "Un", "R", "MonFail", "MonWake", "Remove"}
 				c.ViaRPC = true
 				return c
 			}(), pick(3, 4), minutes(pickf(0.5, 4))},
@@ -447,6 +447,13 @@ func runsFor(prop, tier string) []run {
 				c.ViaREST = true
 				return c
 			}(), pick(3, 4), minutes(pickf(0.6, 5))},
+			// a replica was marked ERR by a fault the volume survived (REST set-mode here; a failed resize, snapshot or revert
+			// does the same), its process has restarted, and the monitor has not reaped the old entry yet
+			{"rf3-replica-marked-ERR-restarted-not-yet-reaped", func() eb.Cfg {
+				c := mk(3, 4, append(append([]string{}, rw2...), "ERR:1", "Restart:1"))
+				c.Alphabet = []string{"Add", "AddDup", "Sync", "Verify", "W", "MonWake", "Remove", "RW", "ERR"}
+				return c
+			}(), pick(4, 5), minutes(pickf(0.5, 4))},
 			{"rf2-from-initial", mk(2, 3, nil), pick(6, 8), minutes(pickf(0.6, 4))},
 			{"rf1-from-initial", mk(1, 2, nil), pick(6, 8), minutes(pickf(0.4, 3))},
 			{"rf3-overlapping-adds", func() eb.Cfg {
